@@ -61,7 +61,26 @@ theorem ty_of {l : Nat} {bc : List VCell} {e : Bool} (hc : code l = some bc)
 def laws : CodeLaws ops where
   e := 0
   code _ l := code l
-  HInv h := ∀ c, h = some c → ∃ K, ContWF (tyOf code) 0 c K
+  HInv h := ∀ c, h = some c → ∃ K, ContWF (fun _ => True) (tyOf code) 0 c K
+  Val _ := True
+  val_imm := fun _ _ => trivial
+  put_val := fun _ _ => trivial
+  maybePut_val := fun _ _ => trivial
+  newCont_val := fun _ _ => trivial
+  makeClosure_val := fun _ => trivial
+  vectorPush_val := fun _ => trivial
+  globGet_val := fun _ _ => trivial
+  envGet_val := fun _ _ => trivial
+  envGet_val2 := fun _ _ => trivial
+  info_code := by
+    intro h l bc info _ hc hi
+    have hi' : (if l = 8 then some (⟨1⟩ : LambdaInfo) else none) = some info := hi
+    have hc' : code l = some bc := hc
+    by_cases h8 : l = 8
+    · subst h8
+      rw [show code 8 = some code8 from rfl] at hc'
+      cases hc'; cases hi'; decide
+    · exact absurd hi' (by simp [h8])
   fetch_code := by
     intro h l bc _ hc o
     show (code l).bind (·[o]?) = _
@@ -150,7 +169,7 @@ def nthB (k : Nat) : St (Option Cont) := (runK k (prepare (nthA 8) 21)).getD idl
 
 theorem wf_startA : WFS laws (prepare idle 20) [] := by
   obtain ⟨t, ht, he⟩ := ty_of (l := 20) rfl ver20
-  exact WFS.initial (cl := laws) (fun c hc => by cases hc) ht he rfl (by decide)
+  exact WFS.initial (cl := laws) (fun c hc => by cases hc) ht he rfl (by decide) trivial
 
 theorem wfA (k : Nat) (hk : k ≤ 8) : ∃ K, WFS laws (nthA k) K := by
   have h : ∀ k, k ≤ 8 → runK k (prepare idle 20) = some (nthA k) := by
@@ -162,7 +181,7 @@ theorem wfA (k : Nat) (hk : k ≤ 8) : ∃ K, WFS laws (nthA k) K := by
 theorem wf_startB : WFS laws (prepare (nthA 8) 21) [] := by
   obtain ⟨t, ht, he⟩ := ty_of (l := 21) rfl ver21
   obtain ⟨K, hw⟩ := wfA 8 (by omega)
-  exact WFS.initial (cl := laws) hw.inv ht he rfl (by decide)
+  exact WFS.initial (cl := laws) hw.inv ht he rfl (by decide) trivial
 
 theorem wfB (k : Nat) (hk : k ≤ 4) : ∃ K, WFS laws (nthB k) K := by
   have h : ∀ k, k ≤ 4 → runK k (prepare (nthA 8) 21) = some (nthB k) := by
